@@ -38,7 +38,8 @@ def AVal.nonneg : AVal → Prop
 /-- the value of attribute `name` is well typed -/
 structure ValOk (c : Ctx) (name : String) (v : AVal) : Prop where
   kind : ∀ k, inspected.lookup name = some k → v.kind = k
-  nonneg : v.nonneg
+  /-- a length set on an object is not negative (the model stores lengths as naturals) -/
+  nonneg : name = "Cryptographic Length" → v.nonneg
   struct : v = .other → ∀ r, c.rule? name = some r → r.multivalued = true
 
 theorem lookup_lit {k : Kind} {name lit : String} (h : name = lit) (hl : inspected.lookup lit = some k) :
@@ -50,12 +51,16 @@ theorem ValOk.enum_of {c : Ctx} {name : String} {v : AVal} (hv : ValOk c name v)
   cases v <;> simp only [AVal.kind] at this <;> first | exact ⟨_, rfl⟩ | cases this
 
 theorem ValOk.int_of {c : Ctx} {name : String} {v : AVal} (hv : ValOk c name v)
-    (h : inspected.lookup name = some .int) : ∃ n, v = .int n ∧ 0 ≤ n := by
+    (h : inspected.lookup name = some .int) : ∃ n, v = .int n := by
   have hk := hv.kind _ h
-  have hn := hv.nonneg
   cases v with
-  | int n => exact ⟨n, rfl, hn⟩
+  | int n => exact ⟨n, rfl⟩
   | _ => simp only [AVal.kind] at hk; cases hk
+
+theorem ValOk.len_of {c : Ctx} {name : String} {v : AVal} (hv : ValOk c name v)
+    (h : name = "Cryptographic Length") : ∃ n, v = .int n ∧ 0 ≤ n := by
+  obtain ⟨n, rfl⟩ := hv.int_of (lookup_lit h (by decide))
+  exact ⟨n, rfl, hv.nonneg h⟩
 
 theorem ValOk.text_of {c : Ctx} {name : String} {v : AVal} (hv : ValOk c name v)
     (h : inspected.lookup name = some .text) : ∃ a, v = .text a := by
@@ -98,11 +103,11 @@ theorem setSingle_noInternal {c : Ctx} {o : Obj} {name : String} {v : AVal} (hv 
     ni_auto
   · split
     · rename_i hn
-      obtain ⟨n, rfl, hnn⟩ := hv.int_of (lookup_lit (by simpa using hn) (by decide))
+      obtain ⟨n, rfl, hnn⟩ := hv.len_of (by simpa using hn)
       ni_auto
     · split
       · rename_i hn
-        obtain ⟨n, rfl, hnn⟩ := hv.int_of (lookup_lit (by simpa using hn) (by decide))
+        obtain ⟨n, rfl⟩ := hv.int_of (lookup_lit (by simpa using hn) (by decide))
         ni_auto
       · split
         · rename_i hn
@@ -388,9 +393,7 @@ theorem reqLen_noInternal {c : Ctx} {d : AttrDict} (msg : String) (hd : DictOk c
   | none => exact NoInternal.kerr _ _
   | some col =>
     obtain ⟨v, rfl, hv⟩ := single_of_colOk hs (hd.get hget).2
-    obtain ⟨n, rfl, hn⟩ := hv.int_of (by decide)
-    have : ¬ n < 0 := by omega
-    simp only [this, if_false]
+    obtain ⟨n, rfl⟩ := hv.int_of (by decide)
     exact NoInternal.pure _
 
 theorem reqMask_noInternal (d : AttrDict) (msg : String) : NoInternal (reqMask d msg) := by
@@ -405,7 +408,7 @@ theorem deriveLen_noInternal {c : Ctx} {d : AttrDict} (hd : DictOk c d)
   | none => exact NoInternal.kerr _ _
   | some col =>
     obtain ⟨v, rfl, hv⟩ := single_of_colOk hs (hd.get hget).2
-    obtain ⟨n, rfl, hn⟩ := hv.int_of (by decide)
+    obtain ⟨n, rfl⟩ := hv.int_of (by decide)
     simp only
     ni_auto
 
